@@ -249,6 +249,10 @@ MUTATIONS = [
     ('return_value_from_empty', '', 'empty rv() { return 1; }\n'),
     ('missing_return_value', '', 'int rv() { return; }\n'),
     ('missing_return_statement', '', 'int rv(int q) { if (q > 0) { return 1; } }\n'),
+    ('return_empty_call_from_empty', '', 'empty nothing() { }\nempty rv(int q) { if (q > 0) { return nothing(); } write(q); }\n'),
+    ('return_builtin_call_from_empty', '', 'empty rv(int q) { return writeln("x"); }\n'),
+    ('return_empty_call_in_loop', '', 'empty nothing() { }\nempty rv(int q) { while (q > 0) { return nothing(); } }\n'),
+    ('return_empty_call_from_int', '', 'empty nothing() { }\nint rv(int q) { return nothing(); }\n'),
     ('return_string_for_int', '', 'int rv() { return "s"; }\n'),
     ('return_int_for_bool', '', 'bool rv() { return 1; }\n'),
     ('return_bool_for_int', '', 'int rv() { return true; }\n'),
@@ -294,6 +298,17 @@ MUTATIONS = [
     ('self_reference_narrowing_through_global_namesake', '\n    byte giv = giv;', ''),
     ('self_reference_mutable_alias_of_const_global', '\n    int[] gcia = gcia;', ''),
     ('self_reference_inner_scope_uses_outer_then_redeclares', '\n    { bool iv = iv; }', ''),
+    # an operand that is never evaluated is still type-checked
+    ('ill_typed_right_of_constant_false_and', '\n    bool q = cf and nosuch;', ''),
+    ('ill_typed_right_of_literal_false_and', '\n    if (false and nofunc(1)) { }', ''),
+    ('ill_typed_right_of_true_or', '\n    bool q = true or (iv + "s") > 1;', ''),
+    ('ill_typed_right_of_not_false_or', '\n    bool q = not cf or takeb(iv);', 'bool takeb(byte b) { return true; }\n'),
+    ('wrong_arity_right_of_constant_false_and', '\n    if (cf and two(1)) { }', 'bool two(int a, int b) { return true; }\n'),
+    ('empty_operand_right_of_constant_false_and', '\n    if (cf and nothing()) { }', 'empty nothing() { }\n'),
+    ('nested_array_right_of_true_or', '\n    bool q = true or [ia, ia].length > 0;', ''),
+    ('ill_typed_in_if_false', '\n    if (false) { iv = "s"; }', ''),
+    ('ill_typed_in_while_false', '\n    while (cf) { nofunc(); }', ''),
+    ('ill_typed_in_dead_speculation_operand', '\n    int q = 1 ?? nosuch;', ''),
     ('duplicate_signature', None, 'int mk_int() { return 2; }\n'),
     ('duplicate_signature_other_return', None, 'bool mk_int() { return true; }\n'),
     ('redefine_builtin', None, 'empty write(int x) { }\n'),
